@@ -38,6 +38,12 @@ type Mut struct {
 	Faults    []Fault `json:"faults,omitempty"`
 	Integrity int     `json:"integrity"`        // litestream.IntegrityCheckMode
 	Anchor    string  `json:"anchor,omitempty"` // "" = Off absolute; "pageblock" = Off relative to the end of the page block (corpus files)
+	// disk-delete-set: remove these replica files (any level, not only plan files) from the on-disk copy,
+	// then restore with the given target (TXID / timestamp in ms, 0 = default "latest").
+	Files   []planID `json:"files,omitempty"`
+	TXID    uint64   `json:"txid,omitempty"`
+	TS      int64    `json:"ts_ms,omitempty"`
+	MustErr string   `json:"must_err,omitempty"` // expectation derived from the remaining files: why success would be wrong
 }
 
 type RestoreCase struct {
@@ -303,6 +309,26 @@ func doDiskRestore(q workerReq, out string) workerResp {
 		return fail(err)
 	}
 	client := file.NewReplicaClient(cp)
+	if m.Kind == "disk-delete-set" {
+		for _, f := range m.Files {
+			if err := os.Remove(client.LTXFilePath(f.Level, ltx.TXID(f.Min), ltx.TXID(f.Max))); err != nil {
+				return fail(err)
+			}
+		}
+		r := litestream.NewReplicaWithClient(nil, client)
+		opt := litestream.NewRestoreOptions()
+		opt.OutputPath = out
+		opt.TXID = ltx.TXID(m.TXID)
+		if m.TS != 0 {
+			opt.Timestamp = time.UnixMilli(m.TS).UTC()
+		}
+		rerr := r.Restore(context.Background(), opt)
+		resp := workerResp{OK: rerr == nil}
+		if rerr != nil {
+			resp.Err = rerr.Error()
+		}
+		return resp
+	}
 	if m.File >= len(q.Plan) {
 		return fail(fmt.Errorf("no plan file %d", m.File))
 	}
@@ -389,6 +415,9 @@ func restoreOracle(m Mut, o restoreObs) string {
 			return "pre-existing output path was modified: " + o.Out
 		}
 		return ""
+	}
+	if o.Res == "ok" && m.MustErr != "" {
+		return "Restore returned nil although " + m.MustErr + " (output: " + o.Out + ")"
 	}
 	if o.Res == "ok" {
 		if o.Out != "complete" {
@@ -517,4 +546,60 @@ func sizePrefixHighBytes(b []byte) map[int]bool {
 		}
 	}
 	return m
+}
+
+// ---- deletions anywhere in the replica (gap after a snapshot, bridged or not) ----
+
+type rfile struct {
+	Level    int
+	Min, Max int
+	Created  int64 // ms
+}
+
+func allFiles(c *file.ReplicaClient) ([]rfile, error) {
+	var a []rfile
+	for lvl := 0; lvl <= litestream.SnapshotLevel; lvl++ {
+		itr, err := c.LTXFiles(context.Background(), lvl, 0, false)
+		if err != nil {
+			return nil, err
+		}
+		for itr.Next() {
+			i := itr.Item()
+			a = append(a, rfile{Level: i.Level, Min: int(i.MinTXID), Max: int(i.MaxTXID), Created: i.CreatedAt.UnixMilli()})
+		}
+		itr.Close()
+	}
+	return a, nil
+}
+
+// reachSet: every TXID at which a chain of the given files starting at TXID 1 can end (brute force,
+// independent of the planner): f extends cur iff f.Min <= cur+1 && f.Max > cur.
+func reachSet(fs []rfile, ok func(rfile) bool) map[int]bool {
+	r := map[int]bool{0: true}
+	for changed := true; changed; {
+		changed = false
+		for _, f := range fs {
+			if !ok(f) || r[f.Max] {
+				continue
+			}
+			for cur := range r {
+				if f.Min <= cur+1 && f.Max > cur {
+					r[f.Max] = true
+					changed = true
+					break
+				}
+			}
+		}
+	}
+	return r
+}
+
+func maxKey(m map[int]bool) int {
+	x := 0
+	for k := range m {
+		if k > x {
+			x = k
+		}
+	}
+	return x
 }
